@@ -3,6 +3,7 @@ package props
 import (
 	"fmt"
 	"math/rand"
+	"regexp"
 	"sort"
 	"strings"
 	"time"
@@ -134,8 +135,8 @@ func c12Case(r *core.Run, idx int, rng *rand.Rand) {
 		q.Subject = other.Username
 		u, ref = other, refAttributes(other)
 	}
-	var body string
-	switch rng.Intn(6) {
+	var body, evilID string
+	switch rng.Intn(7) {
 	case 0, 1:
 		key := keys.Get("sp0")
 		sig = "valid"
@@ -151,6 +152,62 @@ func c12Case(r *core.Run, idx int, rng *rand.Rand) {
 			sx = strings.Replace(sx, q.ID, q.ID+"x", 1)
 		}
 		body = q.Envelope(strings.TrimSpace(strings.TrimPrefix(sx, `<?xml version="1.0" encoding="UTF-8"?>`)))
+	case 2:
+		// signature wrapping: a genuine signed query about the known user travels together with an
+		// unsigned query (other ID, other subject); whatever is answered must be covered by the signature
+		if subj != "known" || !issuerReg {
+			body = q.XML(rng)
+			break
+		}
+		sx, err := spsim.SignEnveloped(q.QueryNode().Render(q.Style.Indent), keys.Get("sp0"), spsim.XMLSignOpts{Alg: spsim.AlgRSASHA256, DropKey: rng.Intn(3) == 0})
+		if err != nil {
+			panic(err)
+		}
+		signed := strings.TrimSpace(strings.TrimPrefix(sx, `<?xml version="1.0" encoding="UTF-8"?>`))
+		q2 := *q
+		q2.ID = "MKevil" + randHex(rng, 6)
+		q2.Subject = other.Username
+		q2.Attrs = nil
+		evilID = q2.ID
+		forged := q2.QueryNode().Render(q.Style.Indent)
+		withSig := forged
+		if m := sigElementRE.FindString(signed); m != "" {
+			if i := issuerEndRE.FindStringIndex(forged); i != nil {
+				withSig = forged[:i[1]] + m + forged[i[1]:]
+			}
+		}
+		variant := rng.Intn(7)
+		sig = fmt.Sprintf("wrapped_%d", variant)
+		switch variant {
+		case 0:
+			body = q.Envelope(signed + forged)
+		case 1:
+			body = q.Envelope(forged + signed)
+		case 2:
+			body = q.Envelope(signed + withSig)
+		case 3:
+			body = q.Envelope(withSig + signed)
+		case 4: // two SOAP bodies
+			first, second := q.Envelope(signed), bodyElementRE.FindString(q.Envelope(withSig))
+			i := strings.LastIndex(first, "</")
+			body = first[:i] + second + first[i:]
+			if rng.Intn(2) == 0 {
+				first, second = q.Envelope(withSig), bodyElementRE.FindString(q.Envelope(signed))
+				i = strings.LastIndex(first, "</")
+				body = first[:i] + second + first[i:]
+			}
+		case 5: // the signed query rides in the SOAP header, the forged one in the body
+			b := q.Envelope(withSig)
+			i := bodyElementRE.FindStringIndex(b)
+			pfx := ""
+			if q.SoapPfx != "" {
+				pfx = q.SoapPfx + ":"
+			}
+			body = strings.Replace(b[:i[0]], "<"+pfx+"Header></"+pfx+"Header>", "", 1) + "<" + pfx + "Header>" + signed + "</" + pfx + "Header>" + b[i[0]:]
+		default: // the signed query nested inside the forged one
+			i := strings.LastIndex(withSig, "</")
+			body = q.Envelope(withSig[:i] + "<Extensions xmlns=\"urn:oasis:names:tc:SAML:2.0:protocol\">" + signed + "</Extensions>" + withSig[i:])
+		}
 	default:
 		body = q.XML(rng)
 	}
@@ -184,6 +241,19 @@ func c12Case(r *core.Run, idx int, rng *rand.Rand) {
 	} else {
 		r.Count("replies_without_user_data", 1)
 		r.Count("refused_"+firstRefusal(issuerReg, dest, sig, subj), 1)
+	}
+	if strings.HasPrefix(sig, "wrapped_") {
+		// rejection is always allowed; an answer must be the answer to the signed query
+		full := dd.FullText()
+		if strings.Contains(full, fmt.Sprintf("U_MK%dxother", idx)) || (dd.Success() && (dd.Msg.InResponseTo == evilID || dd.Msg.SCInResponseTo == evilID)) {
+			viol("disclosed_despite_bad_signature", "the reply answers content that is not covered by the signature the query carries (data of the other user or the ID of the unsigned query)")
+		}
+		if dd.Success() {
+			r.Count("wrapped_answered_for_signed_query", 1)
+		} else {
+			r.Count("wrapped_refused", 1)
+		}
+		return
 	}
 	if !dd.Success() {
 		if leaked {
@@ -252,12 +322,9 @@ func c12Case(r *core.Run, idx int, rng *rand.Rand) {
 		return
 	}
 	for _, f := range fails {
-		if c14n == "c14n_special" && (f.Clause == "v1_rejects" || f.Clause == "v2_rejects") {
-			r.Count("signature_not_judged_known_c14n_defect", 1) // judged by C04 (known finding D6)
-			continue
-		}
 		viol("signature/"+f.Clause, f.Reason)
 	}
+	r.Count("answers_"+c14n, 1)
 	if len(fails) == 0 {
 		r.Count("signatures_verified", 1)
 	}
@@ -353,6 +420,12 @@ func c12Registration(r *core.Run, idx int, rng *rand.Rand) {
 	}
 }
 
+var (
+	sigElementRE  = regexp.MustCompile(`(?s)<([A-Za-z0-9_.-]+:)?Signature[ >].*</([A-Za-z0-9_.-]+:)?Signature>`)
+	issuerEndRE   = regexp.MustCompile(`</([A-Za-z0-9_.-]+:)?Issuer>`)
+	bodyElementRE = regexp.MustCompile(`(?s)<([A-Za-z0-9_.-]+:)?Body>.*</([A-Za-z0-9_.-]+:)?Body>`)
+)
+
 func firstRefusal(issuerReg bool, dest, sig, subj string) string {
 	switch {
 	case !issuerReg:
@@ -394,8 +467,7 @@ func init() {
 		Build: func(c *Ctx) []core.Workload {
 			r := c.Run
 			r.Rule = "SOAP attribute queries with labelled Issuer (registered / unregistered), Destination (absent / advertised attribute service / SSO location / foreign / another host's), signature (none / valid / invalid / unregistered key), subject (known / other user / unknown) and 0-6 requested attributes (matching, name-only, format-only, duplicates, near misses) against random user records; static and host-derived issuers. Monitor: any user canary in a reply implies registered Issuer, no non-verifying signature, acceptable Destination; answered queries: lookup argument, NameID, InResponseTo, Audience, Issuer, attribute set = reference filter (as sets), assertion signature verified by V1 and V2. A second workload keeps ONE provider alive while the requester is deregistered / re-registered and the queried users alternate. Distinct = label tuple."
-			r.Assume("assertion signatures over strings that canonical XML must escape are judged by C04 (known finding D6), not here")
-			r.Require("answered_queries", 100)
+						r.Require("answered_queries", 100)
 			r.Require("filter_excluded_something", 30)
 			r.Require("refused_issuer", 20)
 			r.Require("refused_destination", 20)
